@@ -225,10 +225,17 @@ Error BaseAssembler::embed_const_pool(const Label& label, const ConstPool& pool)
     return report_error(make_error(Error::kLabelAlreadyBound));
   }
 
+  size_t size = pool.size();
+
+  // Reserve the space required by both the alignment and the pool first, so nothing can fail after the label is bound.
+  {
+    CodeWriter reserve_writer(this);
+    ASMJIT_PROPAGATE(reserve_writer.ensure_space(this, size + pool.alignment()));
+  }
+
   ASMJIT_PROPAGATE(align(AlignMode::kData, uint32_t(pool.alignment())));
   ASMJIT_PROPAGATE(bind(label));
 
-  size_t size = pool.size();
   if (!size) {
     return Error::kOk;
   }
